@@ -30,13 +30,16 @@
 (*   A2_Sound    accepted => fully valid (instance, eon range, 1..MaxKeys  *)
 (*               keys that verify against the eon's key, identities        *)
 (*               ordered, Gnosis extra in range, genuine threshold)        *)
+(*   A2_ForgedKeysAccepted  accepted although a decryption key of the      *)
+(*               message is not a genuine key at all                       *)
 (*   A2_TruncatedThresholdAccept  accepted under a keyper set whose on-    *)
 (*               chain threshold does not fit int32 (outside C06)          *)
 (*   A2_AcceptRevoked   a message accepted earlier is no longer accepted   *)
 (*   A2_StartupReject   a well-formed candidate (genuine keys of one key,  *)
 (*               genuine threshold of one list) is REJECTED -- the         *)
 (*               forwarding peer is penalised -- while the node does not   *)
-(*               yet know the eon's keyper set / key                       *)
+(*               yet know the eon's keyper set / key (nothing announced),   *)
+(*               and what it does know of the eon does not refute it       *)
 (*   A3 facts    F_SetLastWins F_SetFirstWins F_KeyLastWins F_KeyFirstWins *)
 (*               what a re-announcement with different content does        *)
 (*               (A3_SetOther / A3_KeyOther: neither)                      *)
@@ -111,11 +114,14 @@ MsgObs(gn, m, v, pre, post) ==
         k == gn.lk[m.e] IN
     (IF v = "accept" /\ InC06(a) /\ ~GenuineThreshold(m, a) THEN {"C06_OnlyIf"} ELSE {}) \cup
     (IF FullyValid(m, a, k) /\ v # "accept" /\ v \notin {"panic", "hang"} THEN {"C06_If"} ELSE {}) \cup
-    (IF v = "accept" /\ InC06(a) /\ ~FullyValid(m, a, k) THEN {"A2_Sound"} ELSE {}) \cup
+    (IF v = "accept" /\ \E i \in 1..Len(m.keys) : m.keys[i] \notin GoodKeys THEN {"A2_ForgedKeysAccepted"} ELSE {}) \cup
+    (IF v = "accept" /\ InC06(a) /\ ~FullyValid(m, a, k) /\ \A i \in 1..Len(m.keys) : m.keys[i] \in GoodKeys THEN {"A2_Sound"} ELSE {}) \cup
     (IF v = "accept" /\ ~InC06(a) THEN {"A2_TruncatedThresholdAccept"} ELSE {}) \cup
     (IF \E p \in gn.seen : p[1] = m /\ p[2] # v THEN {"A1_NoInterference"} ELSE {}) \cup
     (IF m \in gn.acc /\ v # "accept" THEN {"A2_AcceptRevoked"} ELSE {}) \cup
-    (IF Candidate(m) /\ ~Known(gn, m.e) /\ v = "reject" THEN {"A2_StartupReject"} ELSE {}) \cup
+    (IF /\ Candidate(m) /\ v = "reject" /\ (gn.as[m.e] = {} \/ gn.ak[m.e] = {})
+        /\ (gn.ak[m.e] # {} => KeysGenuine(m, k)) /\ (gn.as[m.e] # {} => GenuineThreshold(m, a))
+     THEN {"A2_StartupReject"} ELSE {}) \cup
     (IF post # pre THEN {"A4_ValidationWrites"} ELSE {}) \cup
     (IF v = "panic" THEN {"C05_Panic"} ELSE {}) \cup
     (IF v = "hang" THEN {"C05_Hang"} ELSE {})
